@@ -697,7 +697,14 @@ func c11Plumbing(p *Prog, r *Report, rule string) {
 	if an := p.Func("internal/app.New"); an != nil {
 		info := an.Pkg.TypesInfo
 		un, st := false, false
-		ast.Inspect(an.Decl.Body, func(x ast.Node) bool {
+		// the server may be built in New itself or in a helper of the package
+		var bodies []ast.Node
+		for _, k := range sortedFuncKeys(p) {
+			if f2 := p.Funcs[k]; f2.Pkg == an.Pkg && f2.Decl.Body != nil {
+				bodies = append(bodies, f2.Decl.Body)
+			}
+		}
+		scan := func(x ast.Node) bool {
 			if c, ok := x.(*ast.CallExpr); ok {
 				for _, a := range c.Args {
 					k := exprObjKey(info, a)
@@ -714,7 +721,10 @@ func c11Plumbing(p *Prog, r *Report, rule string) {
 				}
 			}
 			return true
-		})
+		}
+		for _, b := range bodies {
+			ast.Inspect(b, scan)
+		}
 		r.Check(un, rule, "internal/app.New#unary-interceptor", p.pos(an.Decl), "ContextInterceptor installed", "the unary context interceptor is not installed: unary calls lose their transaction")
 		r.Check(st, rule, "internal/app.New#stream-interceptor", p.pos(an.Decl), "ContextStreamInterceptor installed", "the stream context interceptor is not installed: SetFile/GetFile lose their transaction")
 	} else {
